@@ -1092,8 +1092,10 @@ class PureScheduler:                                    # pylint: disable=r0902
             # find out which ones really can be added
             added = 0
             for candidate_next in possible_next_jobs:
-                # do not add an job twice
-                if candidate_next.is_running():
+                # do not add an job twice; is_running() would not do here, as
+                # a job that waits for a slot in the window is scheduled
+                # - i.e. it has its task already - but not yet running
+                if candidate_next.is_scheduled():
                     continue
                 # we can start only if all requirements are satisfied
                 # at this point entry points have is_running() -> return True
